@@ -26,6 +26,11 @@ Theorem C10_acceptor_table : forall p, default_accept p = spec_accept p.
 Proof. exact default_accept_spec. Qed.
 Print Assumptions C10_acceptor_table.
 
+(* every write of a parser goroutine to the accumulator the merger reads is inside a sync.Once *)
+Theorem C10_shared_writes_once : shared_writes_ok mergedir_shared_writes = true.
+Proof. exact mergedir_shared_writes_ok. Qed.
+Print Assumptions C10_shared_writes_once.
+
 (* the walk before the repair loses the file listed after a sub-directory *)
 Theorem C10_walk_complete_unfixed_refuted :
   reach true [[122%N]] unfixed_witness /\ ~ In [[122%N]] (walk_unfixed true [] unfixed_witness)
